@@ -196,6 +196,7 @@ pub fn probe_iterators<K: KeyT, V: ValT>(rebuild: &dyn Fn() -> MapSut<K, V>, sut
     let vo = |v: &V| (0, 0, v.tok());
     let vm = |v: &mut V| (0, 0, v.tok());
     for j in 0..=n + 2 {
+        crate::crumbs::touch();
         for tail in [Tail::Next, Tail::Fold, Tail::ForEach] {
             expect("iter()", drive(sut.map.iter(), n, j, tail, "iter()", &kv)?, &full)?;
             expect("(&map).into_iter()", drive((&sut.map).into_iter(), n, j, tail, "(&map).into_iter()", &kv)?, &full)?;
@@ -511,6 +512,7 @@ pub fn probe_removal<K: KeyT, V: ValT>(
     };
     let in_set = |mask: u32, id: u8| -> bool { ids.iter().position(|&x| x == id).map_or(false, |p| mask >> p & 1 == 1) };
     for &mask in &subsets {
+        crate::crumbs::touch();
         // retain: keep exactly `mask`
         {
             let mut s = rebuild();
@@ -780,6 +782,7 @@ pub fn probe_capacity<K: KeyT, V: ValT>(rebuild: &dyn Fn() -> MapSut<K, V>, sut:
     }
     // reserve(n)
     for n in boundary_values(cap) {
+        crate::crumbs::touch();
         let mut s = rebuild();
         let before = s.map.allocation_size();
         let (a0, _) = env::alloc_calls();
